@@ -28,6 +28,8 @@ def reynolds(mdot, d_m, eta):
 
 
 def lambda_turbulent_nikuradse(d_m, k_m, gas):
+    if k_m <= 0.0:      # hydraulically smooth: the formula's limit
+        return 0.0
     if gas:
         return 1.0 / (2.0 * math.log10(d_m / k_m) + 1.14) ** 2
     return 1.0 / (2.0 * math.log10(3.71 * d_m / k_m)) ** 2
